@@ -36,6 +36,8 @@ var Inputs = []Input{
 	{"commented", "SELECT 1 -- c1\n/* c2 */ FROM t"},
 	{"dialect-words", "SELECT zerofill, rownum, qualify, ilike, pragma, `bt` FROM t"}, // tokenizer keyword set
 	{"reject-late", "SELECT a FROM t WHERE a = 1 AND (b = 2 OR c = ) ORDER BY a"},
+	{"ident-then-unicode-1", "SELECT a FROM t WHERE key_id = 1 AND row_id = 2 AND url_id"},                // leaves keyword-like bytes in a pooled scratch buffer …
+	{"unicode-ident", "SELECT 名, é, ñandú, 日本 FROM 表 WHERE 名 = 1"},                                        // … which a non-ASCII identifier must not pick up
 	{"literals", "SELECT 'bob', \"Quoted Col\", `bt` FROM \"users\" WHERE city = 'x' AND note = 'it''s'"}, // scratch buffers of string/identifier readers
 }
 
